@@ -8,7 +8,7 @@
    in any order of the enabled internal rules. *)
 From Coq Require Import List ZArith Bool.
 Import ListNotations.
-From Goat Require Import Model.Client Model.Server Proofs.ServerProofs.
+From Goat Require Import Model.Client Model.Server Proofs.ServerProofs Proofs.ServerInv Proofs.ServerLive.
 Open Scope Z_scope.
 
 (* no reachable state is crashed: the places where the code dereferences the
@@ -17,3 +17,43 @@ Open Scope Z_scope.
 Theorem C12_no_crash : forall ls s, lrun init ls = Some s -> crashed s = false.
 Proof. exact (srv_no_crash nworkers). Qed.
 Print Assumptions C12_no_crash.
+
+(* never stalls (Q): in every reachable quiescent state in which every handler that was started has returned,
+   the transport does not block writes and the connection has not been ended (no Stop, no failed write, Serve
+   not left), the read loop sits in rw.Read with nothing unread: whatever the peer sent before, it has all been
+   consumed; the writer waits for work, every worker is idle, no stream handler goroutine is left and the
+   registry is empty - the connection is exactly as idle as a fresh one. *)
+Theorem C12_never_stalls : forall ls s, lrun init ls = Some s ->
+  quiescent s = true ->
+  (forall h k, nth_error (hs s) h = Some k -> h_returned k = true) ->
+  wblock s = false -> hctx_done s = false ->
+  rd s = RdRead /\ inbox s = [] /\ wr s = WrSel
+  /\ (forall w p, nth_error (wk s) w = Some p -> p = WkIdle)
+  /\ (forall h k, nth_error (hs s) h = Some k -> h_pc k = HDead)
+  /\ registry_size s = 0%nat.
+Proof.
+  intros ls s H. apply (srv_quiescent_idle nworkers); [unfold nworkers; auto with arith | exact (inv_reach nworkers ls s H)].
+Qed.
+Print Assumptions C12_never_stalls.
+
+(* the hypotheses are met by a non-trivial reachable state: garbage, a stream that was opened, fed and closed,
+   an undecodable unary request, and an answered unary request *)
+Definition ex_hdr (id : Z) (k : mkind) (e : env) : frame := mkFrame e k 2 1.
+Definition ex_acts : list act :=
+  [ ADeliver (ex_hdr 5 MBad (mkEnv 5 (Some (MdOk 0)) None (Some 3) None false));
+    ADeliver (mkFrame (mkEnv 6 None None (Some 4) None false) MBad 0 0);
+    ADeliver (ex_hdr 1 (MStream 3) (mkEnv 1 (Some (MdOk 0)) None None None false));
+    AHandlerStep 0 HRecv;
+    ADeliver (ex_hdr 1 (MStream 3) (mkEnv 1 (Some (MdOk 0)) None (Some 11) None false));
+    ADeliver (ex_hdr 2 (MStream 3) (mkEnv 2 (Some (MdOk 0)) None (Some 12) None false));
+    ADeliver (ex_hdr 7 (MUnary 1) (mkEnv 7 (Some MdBad) None (Some 13) None false));
+    AHandlerStep 0 (HSend 21);
+    AHandlerStep 0 (HReturn None HNil);
+    ADeliver (ex_hdr 9 (MUnary 1) (mkEnv 9 (Some (MdOk 0)) None (Some 14) None false));
+    AHandlerStep 1 (HReturn (Some 14) HNil) ].
+
+Example C12_never_stalls_ex :
+  exists s, lrun init (labels_of ex_acts) = Some s /\ quiescent s = true
+            /\ forallb h_returned (hs s) = true /\ wblock s = false /\ hctx_done s = false
+            /\ length (hs s) = 2%nat /\ length (filter (fun e => match e with SvWrite _ => true | _ => false end) (log s)) = 5%nat.
+Proof. eexists. vm_compute. repeat split. Qed.
